@@ -598,10 +598,9 @@ class eval_abs(object):
                 out = []
                 ov = self.get_mem_overlapping(a, eval_cache)
                 off_base = 0
-                ov.sort()
-                ov.reverse()
+                ov.sort(key=lambda x:x[0])
                 for off, x in ov:
-                    off_base = off * 8
+                    off_base = max(off, 0) * 8
                     if off >=0:
                         m = min(a.get_size() - off_base, x.get_size())
                         ee = ExprSlice(self.pool[x], 0, m)
